@@ -17,7 +17,7 @@ def main():
         for r in reps:
             if r["status"] == "exception":
                 buckets[(r["exc_type"], r["exc_where"])].append((c, r))
-            for v in r.get("violations") or []:
+            for v in (r.get("violations") or [])[:1]:
                 buckets[("VIOL", v["key"])].append((c, r))
     for c, reps in zip(cases, res):
         w = sum(r.get("wall_s", 0) or 0 for r in reps)
@@ -28,5 +28,5 @@ def main():
         c, r = items[0]
         print(c["kwargs"]); print(c["model"], c.get("kills"))
         print(r.get("traceback", "")[-1800:])
-        for v in r.get("violations") or []: print(v)
+        for v in (r.get("violations") or [])[:3]: print(v)
 main()
